@@ -458,7 +458,7 @@ func (c *c10Run) orderDB(n int) {
 	for i := 0; i < n; i++ {
 		switch x := r.Rng.Intn(10); {
 		case x < 6 || len(nonces) == 0:
-			spec := c.g.orderSpec(r.Rng.Intn(2) == 0)
+			spec := c.orderSpecMixed(r.Rng.Intn(2) == 0, "order")
 			if err := db.SubmitOrder(spec.build()); err != nil {
 				r.Count("order/db-submit-error")
 				continue
